@@ -97,15 +97,19 @@ def _m1_common(res, prop):
     res.extra["configs"] = [dict(o["config"]) for o in outs if o["families"][0] == "mixin" and not o["asrt"]]
     if prop in ("C01", "C02", "C03"):
         q = m1_ops.run_quiet(res.tier)
-        res.replayed += q["n"]
+        w = m1_ops.run_wide_quiet(res.tier)
+        res.add_tlc(w["tlc"])
+        res.replayed += q["n"] + w["n"]
         res.extra["quiet_replays"] = q["n"]
-        for att in q["attention"]:
+        res.extra["wide_node_replays"] = {"children_of_the_hub": w["config"]["Wide"], "replays": w["n"], "identical_to_the_ideal_effect": w["same"]}
+        for att in q["attention"] + w["attention"]:
             v = att.get("verdict")
             if v and prop in v["violated"]:
                 pred, obs = att["pred"], att["obs"]
                 same3 = pred["exc"] == obs["exc"] and pred["postpar"] == obs["postpar"] and pred["postch"] == obs["postch"]
                 if not (prop == "C03" and not att["flags"]["c03"] and same3):
-                    res.violation(m1_ops.record(prop, q, att, "replay without harness reads during the call: violates %s (judged by TLC)" % v["violated"]))
+                    res.violation(m1_ops.record(prop, w if att in w["attention"] else q, att,
+                                                "replay without harness reads during the call: violates %s (judged by TLC)" % v["violated"]))
     return outs
 
 
